@@ -30,6 +30,10 @@ class TaskError(Exception):
     pass
 
 
+class ConventionError(TaskError):
+    '''a pooled items function was not called with the single (label, value) pair'''
+
+
 def work(v):
     '''the function applied: ten times the value, after this item's delay; raises for failing items'''
     i = int(v)
@@ -58,6 +62,19 @@ def _pair(args):
     return args[0] if len(args) == 1 else args
 
 
+class PoolConv:
+    '''The convention of the pooled items form, for EVERY worker count: the function receives ONE argument, the (label, value) pair
+    (the sequential form calls func(label, value)).  A pooled call made with any other arity is a failure of that item.'''
+
+    def __init__(self, fn):
+        self.fn = fn
+
+    def __call__(self, *args):
+        if len(args) != 1:
+            raise ConventionError('pooled items function called with %d arguments' % len(args))
+        return self.fn(args[0])
+
+
 def work_item(*args):
     return work(_pair(args)[1])
 
@@ -76,7 +93,7 @@ def traced_run(n, w, delays, fails, items_form=False, public=None):
     EVENTS = []
     s = sf.Series(np.arange(1, n + 1), index=np.arange(1, n + 1))
     node = s.iter_element_items() if items_form else s.iter_element()
-    fn = work_item_traced if items_form else work_traced
+    fn = PoolConv(work_item_traced) if items_form else work_traced
     out = [{'kind': 'begin', 'n': n, 'w': w, 'c': 1, 'fails': sorted(fails), 'traced': True, 'iface': 'Series.iter_element' + ('_items' if items_form else ''), 'pool': 'threads'}]
     mark = 0
     outcome = 'ok'
@@ -99,7 +116,7 @@ def traced_run(n, w, delays, fails, items_form=False, public=None):
     DELAY.clear()
     try:
         seq = (s.iter_element_items() if items_form else s.iter_element()).apply(work_item if items_form else work)
-        par = (s.iter_element_items() if items_form else s.iter_element()).apply_pool(work_item if items_form else work, max_workers=w, use_threads=True)
+        par = (s.iter_element_items() if items_form else s.iter_element()).apply_pool(PoolConv(work_item) if items_form else work, max_workers=w, use_threads=True)
         equal = par.equals(seq, compare_dtype=True) and list(par.index) == list(seq.index)
         pub = 'ok'
     except TaskError:
@@ -185,7 +202,7 @@ def item_shape(*args):
 
 
 def generic_run(rng, name, mk, fn):
-    w = rng.randint(1, 8)
+    w = rng.choice([1, 1, 2, 3, 4, 5, 6, 7, 8])
     threads = rng.random() < 0.6
     seq_items = list(mk().apply_iter_items(fn))
     n = len(seq_items)
@@ -194,7 +211,8 @@ def generic_run(rng, name, mk, fn):
     outcome = 'ok'
     try:
         k = 0
-        for key, r in mk()._apply_iter_items_parallel(fn, max_workers=w, chunksize=c, use_threads=threads):
+        pfn = PoolConv(fn) if name.endswith('_items') else fn
+        for key, r in mk()._apply_iter_items_parallel(pfn, max_workers=w, chunksize=c, use_threads=threads):
             k += 1
             # position of this key in the sequential form; the value must be the sequential value of that key
             pos = k if k <= n and seq_items[k - 1][0] == key else next((i + 1 for i, (sk, _) in enumerate(seq_items) if sk == key), 0)
@@ -207,7 +225,7 @@ def generic_run(rng, name, mk, fn):
     if outcome == 'ok':
         try:
             seq = mk().apply(fn)
-            par = mk().apply_pool(fn, max_workers=w, chunksize=c, use_threads=threads)
+            par = mk().apply_pool(pfn, max_workers=w, chunksize=c, use_threads=threads)
             equal = type(par) is type(seq) and par.equals(seq, compare_dtype=True, compare_name=True, compare_class=True) and _labels(par) == _labels(seq)
         except Exception:
             equal = False
